@@ -336,7 +336,7 @@ func (e *Evaluator) evalExpr(expr Expr) (*Cell, error) {
 			cell := NewCell(Value{Tag: ValueUnknown})
 			newCell, err := copyValue(value, cell)
 			if err != nil {
-				return nil, e.error(expr.Token(), err.Error())
+				return nil, e.error(kv.Value.Token(), err.Error())
 			}
 
 			(*obj.Obj)[kv.Key] = newCell
